@@ -1612,6 +1612,10 @@ func TestVerifC12(t *testing.T) {
 	}
 	rng := rand.New(rand.NewSource(seed*7919 + 12))
 	for c := 0; c < nCases; c++ {
+		if c%25 == 12 {
+			r.pickWindowCase(rng)
+			continue
+		}
 		if c%500 == 250 {
 			// definitions with nil entries, against the credentials of a small case
 			srcs := []zCredSrc{zGenCred(rng, 0), zGenCred(rng, 1)}
@@ -1824,6 +1828,64 @@ func (r *zRun) variantFlow(rng *rand.Rand, sign *SignInstruction, sub []zMapping
 	forged[i].Path = "$.verifiableCredential[" + strconv.Itoa(len(creds)-1) + "]"
 	forged[i].Fmt = variant.Format()
 	r.opValidate(envRaw, forged, "forged-to-same-id-variant")
+}
+
+// pickWindowCase: a pick requirement with min/max over a group (or over nested requirements) whose members are matched or
+// not at EVERY position: one descriptor per credential id, the wallet holds a random subset in random order
+func (r *zRun) pickWindowCase(rng *rand.Rand) {
+	k := 3 + rng.Intn(2)
+	srcs := []zCredSrc{}
+	ds := []interface{}{}
+	nested := rng.Intn(2) == 0
+	nestedSRs := []interface{}{}
+	for i := 0; i < k; i++ {
+		id := "did:example:issuer#w" + strconv.Itoa(i)
+		doc := map[string]interface{}{"@context": []interface{}{"https://www.w3.org/2018/credentials/v1"}, "id": id,
+			"type": []interface{}{"VerifiableCredential", zPick(rng, zTypes)}, "issuer": "did:example:issuer0", "issuanceDate": "2020-01-01T00:00:00Z",
+			"credentialSubject": map[string]interface{}{"id": "did:example:holder0", "role": zPick(rng, zRoles)}}
+		b, _ := json.Marshal(doc)
+		srcs = append(srcs, zCredSrc{Src: string(b)})
+		g := "A"
+		if nested {
+			g = "G" + strconv.Itoa(i)
+			nestedSRs = append(nestedSRs, map[string]interface{}{"rule": "all", "from": g})
+		}
+		ds = append(ds, map[string]interface{}{"id": "d" + strconv.Itoa(i+1), "group": []interface{}{g},
+			"constraints": map[string]interface{}{"fields": []interface{}{map[string]interface{}{"path": []interface{}{"$.id"}, "id": "f" + strconv.Itoa(i+1),
+				"filter": map[string]interface{}{"type": "string", "const": id}}}}})
+	}
+	sr := map[string]interface{}{"rule": "pick"}
+	mn := rng.Intn(3)
+	mx := mn + rng.Intn(3)
+	switch rng.Intn(4) {
+	case 0:
+		sr["min"] = mn
+	case 1:
+		sr["max"] = 1 + rng.Intn(3)
+	default:
+		sr["min"], sr["max"] = mn, mx
+	}
+	if nested {
+		sr["from_nested"] = nestedSRs
+	} else {
+		sr["from"] = "A"
+	}
+	def := map[string]interface{}{"id": "pdw", "input_descriptors": ds, "submission_requirements": []interface{}{sr}}
+	b, _ := json.Marshal(def)
+	r.stats["pick-window-case"]++
+	if !r.opCase(string(b), srcs) {
+		return
+	}
+	for rep := 0; rep < 3; rep++ {
+		w := []int{}
+		for _, i := range rng.Perm(k) {
+			if rng.Intn(5) < 3 {
+				w = append(w, i)
+			}
+		}
+		r.opMatch(w)
+		r.walletFlow(rng, w, k)
+	}
 }
 
 // hostileRegexCase: a verifier-chosen pattern with catastrophic backtracking on a wallet value; only Match is run, under the watchdog
